@@ -133,6 +133,10 @@ def gen_cases(ctx):
     return cases
 
 
+class _ArrayView(np.ndarray):
+    pass
+
+
 def run_resize_array(ctx):
     rng = ctx.rng('vals')
     cases = gen_cases(ctx)
@@ -202,6 +206,29 @@ def run_resize_array(ctx):
                     r3 = resize_array(b, shp, offs, mode, 0, direction='adjoint', out=outa)
                     if r3 is not outa or not np.allclose(outa, expT, rtol=1e-6 if dt == 'float32' else 1e-13, atol=1e-12):
                         ctx.violation(comp, cfg, 'adjoint-out=!=transpose')
+                    # array-likes that share memory with what np.asarray makes of them: the caller's data must survive
+                    for ckind in ('element', 'ndarray-subclass', 'memoryview', 'list'):
+                        for direction, src, tgt_shape, ref_ in (('adjoint', b, shp, expT), ('forward', arr0, newshp, exp)):
+                            data = np.array(src, copy=True, order='C')
+                            keep = data.copy()
+                            if ckind == 'element':
+                                inp = odl.tensor_space(data.shape, dtype=data.dtype).element(data)
+                            elif ckind == 'ndarray-subclass':
+                                inp = data.view(_ArrayView)
+                            elif ckind == 'memoryview':
+                                if data.size == 0:
+                                    continue
+                                inp = memoryview(data)
+                            else:
+                                inp = data.tolist()
+                                if data.size == 0:
+                                    continue
+                            ctx.ev('resize-reference')
+                            r4 = resize_array(inp, tgt_shape, offs, mode, pc if direction == 'forward' else 0, direction=direction)
+                            if ckind != 'list' and not np.array_equal(data, keep):
+                                ctx.violation(comp, '%s;%s;input=%s' % (mode, direction, ckind), 'input-modified')
+                            if ckind != 'list' and not np.allclose(np.asarray(r4), ref_, rtol=1e-6 if dt == 'float32' else 1e-13, atol=1e-12):
+                                ctx.violation(comp, '%s;%s;input=%s' % (mode, direction, ckind), 'value!=reference')
                 # extend then crop == identity
                 if all(b >= a for a, b in zip(shp, newshp)):
                     ctx.ev('crop-undoes-extend')
@@ -227,12 +254,23 @@ def run_operator(ctx):
     idx = 0
     for tag, sp in spaces:
         for mode in MODES:
-            for delta in (+3, +1, -1, 0):
+            for delta_spec in (+3, +1, -1, 0, 'mixed+-', 'mixed-+', 'mixed0-'):
                 for offkind in ('default', 'zero'):
+                    delta = delta_spec
+                    if isinstance(delta, str) and sp.ndim < 2:
+                        continue
                     idx += 1
                     if not ctx.mine(idx):
                         continue
-                    ran_shp = tuple(max(1, k + delta) for k in sp.shape)
+                    if isinstance(delta, str):
+                        # grow in one axis, shrink in another (range.size may be below, equal to or above domain.size)
+                        per_axis = {'mixed+-': (+2, -1), 'mixed-+': (-1, +4), 'mixed0-': (0, -1)}[delta]
+                        ran_shp = tuple(max(1, k + d_) for k, d_ in zip(sp.shape, per_axis))
+                        dname = delta
+                        delta = 0
+                    else:
+                        dname = None
+                        ran_shp = tuple(max(1, k + delta) for k in sp.shape)
                     offs_in = None if offkind == 'default' else tuple(0 for _ in sp.shape)
                     pad_l = [(b - a) for a, b in zip(sp.shape, ran_shp)]
                     if not all(admissible(a, b, 0 if offs_in else max(0, (b - a + 1) // 2), mode) or b <= a for a, b in zip(sp.shape, ran_shp)):
@@ -243,8 +281,8 @@ def run_operator(ctx):
                     pc = 0
                     comp = 'ResizingOperator'
                     bd = 'bdry' if 'bdry' in tag else 'nobdry'
-                    cfg = '%s;%s;%s' % (mode, 'grow' if delta > 0 else ('shrink' if delta < 0 else 'same'), bd)
-                    ctx.case('op;%s;%s;%s;%s' % (tag, mode, delta, offkind), 0)
+                    cfg = '%s;%s;%s' % (mode, dname or ('grow' if delta > 0 else ('shrink' if delta < 0 else 'same')), bd)
+                    ctx.case('op;%s;%s;%s;%s' % (tag, mode, dname or delta, offkind), 0)
                     ctx.ev('resizing-operator')
                     try:
                         kw = {} if offs_in is None else {'offset': offs_in}
